@@ -39,6 +39,12 @@ func (w *World) ScriptForm(vc *FnVC, o *Obligation, specFns string, skolemized b
 	b.WriteString(specFns)
 	b.WriteString("; ---- function " + vc.Name + ", obligation " + o.Name + "\n")
 	for _, l := range vc.Lines[:o.NLines] {
+		if i := strings.LastIndex(l, " ;ob["); i >= 0 && w.RunningProp != "" {
+			tags := strings.Split(strings.TrimSuffix(l[i+5:], "]"), ",")
+			if !hasProp(tags, w.RunningProp) {
+				continue
+			}
+		}
 		b.WriteString(l + "\n")
 	}
 	b.WriteString("; ---- goal: " + o.Desc + "\n")
@@ -149,6 +155,7 @@ func main() {
 			fargs = fargs[2:]
 			props := map[string]*PropConfig{}
 			if err := loadJSON(filepath.Join(verifDir, "props.json"), &props); err == nil && props[onlyProp] != nil {
+				w.RunningProp = onlyProp
 				NeutralizeUnbacked(w, props, onlyProp)
 				ApplySchemas(w, props[onlyProp].Schemas, onlyProp)
 			}
